@@ -319,3 +319,154 @@ class RpcDecreaseNumprocs:
 
     def exc_RPCError_failed(self, exc):
         return exc.code == Faults.FAILED or exc.code == Faults.STILL_RUNNING
+
+
+# ---- from the commander work (C03/C09/C10): transport effects and the re-entrant call-out
+def reentrancy_discipline_extended(old):
+    """see job_discipline_extended: NOT assumed by the registered proofs"""
+    return (reentrancy_discipline(old)
+            and forall(ApplicationJobs, lambda j: implies(is_alloc(old(j)), only_removed_or_triggered(j, old)))
+            and forall(ApplicationJobs, lambda j: implies(is_alloc(old(j)), in_flight_untouched(j, old)))
+            and reports_untouched(old) and other_command_lists_untouched(old))
+
+
+def reentrancy_discipline(old):
+    return (forall(ApplicationJobs, lambda j: implies(is_alloc(old(j)), keeps_list(j, old)))
+            and forall(ApplicationJobs, lambda j: implies(is_alloc(old(j)), plan_only_shrinks(j, old)))
+            and forall(ApplicationJobs, lambda j: implies(is_alloc(old(j)), plan_shrinks_in_order(j, old))))
+
+
+def other_command_lists_untouched(old):
+    """no list other than the in-flight list of a job is mutated by the re-entered code (planned groups, popped groups
+    still being triggered and the caller's local copies keep their members)"""
+    return forall('List[ProcessCommand]', lambda l: implies(
+        is_alloc(old(l)),
+        exists(ApplicationJobs, lambda j: is_alloc(old(j)) and old(j).current_jobs is l) or l == old(l)))
+
+
+def record_untouched(r, old_r):
+    return (r is old_r and ('state' in r) == ('state' in old_r) and ('event_time' in r) == ('event_time' in old_r)
+            and ('expected' in r) == ('expected' in old_r) and r['state'] == old_r['state']
+            and r['event_time'] == old_r['event_time'] and r['expected'] == old_r['expected'])
+
+
+def reports_untouched(old):
+    """a forced event only sets forced_state / forced_reason: the per-instance reports (info_map records), the rules and
+    the tick counters of the instances are not written by the re-entered code"""
+    return (forall(ProcessStatus, lambda p: implies(
+                is_alloc(old(p)),
+                p.info_map is old(p).info_map and p.rules is old(p).rules
+                and p.rules.wait_exit == old(p).rules.wait_exit
+                and forall(str, lambda i: (i in p.info_map) == (i in old(p).info_map)
+                           and implies(i in p.info_map, record_untouched(p.info_map[i], old(p).info_map[i])))))
+            and forall(SupvisorsInstanceStatus, lambda s: implies(
+                is_alloc(old(s)), s.times is old(s).times
+                and s.times.remote_sequence_counter == old(s).times.remote_sequence_counter)))
+
+
+def job_discipline_extended(j, old):
+    """additional clauses needed by the (not yet converged) contract of ApplicationJobs.check, see wip_c10_check.txt; NOT
+    part of what the registered proofs assume"""
+    return job_discipline(j, old) and only_removed_or_triggered(j, old) and in_flight_untouched(j, old)
+
+
+def job_discipline(j, old):
+    """What a call-out that re-enters the Starter / Stopper guarantees about an ApplicationJobs j that existed before:
+    the job keeps its in-flight list object; commands are only ever removed from the job, or moved from its plan to its
+    in-flight list by a re-entrant next() (never added from outside); planned groups that remain are the same list
+    objects under the same sequence number; the plan only shrinks, in pickup order (re-entrant next()) or entirely
+    (possibly to a new empty dict: ABORT / STOP)."""
+    return keeps_list(j, old) and plan_only_shrinks(j, old) and plan_shrinks_in_order(j, old)
+
+
+def in_flight_untouched(j, old):
+    return forall(old(j).current_jobs, lambda c: command_untouched(c, old(c)))
+
+
+def plan_shrinks_in_order(j, old):
+    """sequence numbers leave the plan in pickup order (re-entrant next()) or all at once (ABORT / STOP)"""
+    return forall(int, int, lambda s, r: implies(
+        s in old(j).planned_jobs and s not in j.planned_jobs and r in j.planned_jobs, before_seq(j, s, r)))
+
+
+def before_seq(j, a, b):
+    """a is picked before b: lower start sequence first (min), higher stop sequence first (max)"""
+    return a < b if isinstance(j, ApplicationStartJobs) else a > b
+
+
+def plan_only_shrinks(j, old):
+    return forall(int, lambda s: implies(s in j.planned_jobs, s in old(j).planned_jobs
+                                         and j.planned_jobs[s] is old(j).planned_jobs[s]))
+
+
+def only_removed_or_triggered(j, old):
+    return forall(j.current_jobs, lambda c: c in old(j).current_jobs or in_plan(old(j), c))
+
+
+def keeps_list(j, old):
+    return j.current_jobs is old(j).current_jobs and j.application is old(j).application
+
+
+def command_untouched(c, old_c):
+    return (c.process is old_c.process and c.identifier == old_c.identifier and c.instance_status == old_c.instance_status
+            and c.request_sequence_counter == old_c.request_sequence_counter and c._wait_ticks == old_c._wait_ticks
+            and c.minimum_ticks == old_c.minimum_ticks)
+
+
+def in_plan(j, c):
+    return exists(int, lambda s: s in j.planned_jobs and c in j.planned_jobs[s])
+
+
+# ---------------------------------------------------------------------------------------------- transport (effects)
+@contract('internal_com.rpchandler:RpcHandler.send_start_process', props=[])
+class SendStartProcess:
+    """pushes a deferred XML-RPC request to the proxy thread (outside the model): no modelled state changes; the
+    emission is recorded in the ghost effect log"""
+    assumed = True
+    effect = 'send_start_process'
+    raises = ()
+
+    def modifies(self):
+        return []
+
+
+@contract('internal_com.rpchandler:RpcHandler.send_stop_process', props=[])
+class SendStopProcess:
+    assumed = True
+    effect = 'send_stop_process'
+    raises = ()
+
+    def modifies(self):
+        return []
+
+
+@contract('internal_com.rpchandler:RpcHandler.send_process_state_event', props=[])
+class SendProcessStateEvent:
+    """publication of a process event to the other Supvisors instances (effect only)"""
+    assumed = True
+    effect = 'send_process_state_event'
+    raises = ()
+
+    def modifies(self):
+        return []
+
+
+@contract('statemachine:FiniteStateMachine.on_process_state_event', props=[])
+class FsmOnProcessStateEvent:
+    """RE-ENTRANT CALL-OUT (DESIGN 1.5).  The forced event is applied locally: Context.on_process_state_event, then
+    starter.on_event / stopper.on_event -> Commander.next, i.e. the Commander whose check() / next() is still running
+    may be re-entered (and, through Starter.after / Stopper.after, the other Commander too).  Nothing is framed (no
+    modifies clause: anything may change).  What is ASSUMED of the re-entered code is reentrancy_discipline:
+    job_discipline for every ApplicationJobs alive before the call (the *_extended clauses - reports / in-flight commands /
+    other lists untouched - are written down for the contract of check() but are not assumed by any registered proof).
+    NOT assumed: that Commander.current_jobs / planned_jobs of the re-entered Commanders are unchanged - a re-entrant
+    Commander.next retires any job that does not look in progress and may trigger the next applications; nor that the
+    in-flight list of a job keeps its members (a re-entrant on_event removes completed commands).
+    Known exclusion (reported in not_decided): Stopper.after -> starter.start_process -> add_commands can ADD a command
+    to the plan of a Starter job while a Stopper chain is running."""
+    assumed = True
+    effect = 'fsm.on_process_state_event'
+    raises = ()
+
+    def post_discipline(self, old):
+        return reentrancy_discipline(old)
